@@ -11,35 +11,51 @@ DeduplicateDecorator) for every list of function declarations, every signature a
 (calls with arbitrary spellings from arbitrary threads / receivers, dirty(), body start / resume (send or throw) /
 suspend / completion in ANY order - the scheduler is an input).
 
-The property is FALSE of the code in one situation, which the `_partial` theorems exclude by a decidable
-hypothesis and `C12_key_normal_counterexample` exhibits:
-* `Sig.ok`: a signature with `*args` AND keyword-only parameters makes the default key conflate different calls.
-(A second defect - the completion callback of an old, dirtied task evicted the newer task's entry - has been
+The property is FALSE of the code in three situations, all of them conflations of the default key, which the
+`_partial` theorems exclude by the decidable hypothesis `callOk` / `histOk` and the `_counterexample` theorems exhibit:
+* `*args` together with keyword-only parameters (`C12_key_normal_counterexample`; recorded open finding);
+* positional-only parameters together with `**kwargs`: a keyword that has the name of a positional-only parameter
+  is dropped from the key or taken for the parameter (`C12_key_posonly_counterexample`);
+* `*args` together with `**kwargs` when an overflow positional is a `(name, value)` 2-tuple: it is the same key
+  element as the keyword `name=value` (`C12_key_pair_counterexample`).
+`C12_spec_needs_histOk` shows that the hypothesis cannot be dropped: the model's own run fails the observer in each.
+(A fourth defect - the completion callback of an old, dirtied task evicted the newer task's entry - has been
 repaired in the code; the model has the repaired callback and `C12_completion_keeps_newer` states the repair.)
 -/
 namespace AsynqModel.Dedup
 
-/-- **C12 as a whole** (partial): for all function declarations with faithful signatures and EVERY history
-    of operations, the observations of the model are accepted by the observer `spec` - the same
-    Boolean function the check evaluates on the observations of the real implementation.  `spec` says: a
-    well-formed call from outside the running body returns the in-flight, undirtied task of the same
-    (function, thread, binding) if there is one, and otherwise a brand-new task; a body receives what its
-    creating call bound; a well-formed call / dirty never raises; ill-formed calls create nothing. -/
+/-- **C12 as a whole** (partial): for all function declarations and EVERY history of operations whose calls and
+    dirty() go to functions on which the default key is faithful for the given arguments (`histOk`: the signature
+    does not combine `*args` with keyword-only parameters nor positional-only parameters with `**kwargs`, and no
+    positional argument of a `*args` + `**kwargs` function is a `(name, value)` 2-tuple), the observations of the
+    model are accepted by the observer `spec` - the same Boolean function the check evaluates on the observations
+    of the real implementation.  `spec` says: a well-formed call returns either the in-flight, undirtied task of
+    the same (function, thread, binding), or - if there is none, or if the body of that task may be executing - a
+    brand-new task; a body starts once and receives what its creating call bound; a well-formed call / dirty never
+    raises; ill-formed calls create nothing; an ill-formed dirty() that raises changes nothing; nothing happens to
+    unknown or completed tasks. -/
 theorem C12_spec_holds_partial (fns : List FnDecl) (ops : List Op)
-    (hsig : sigsOk fns = true) :
+    (h : histOk fns ops = true) :
     spec fns (run fns St.init ops) = true := by
-  obtain ⟨w', h⟩ := watchRun_ok fns hsig ops St.init Watch.init (Or.inr (rel_init fns))
-  simp [spec, h]
+  obtain ⟨w', hw⟩ := watchRun_ok fns ops h St.init Watch.init (rel_init fns)
+  have hw' : watchRun fns Watch.init 0 (run fns St.init ops) = .ok w' := hw
+  simp [spec, hw']
 
-/-- **key normalisation** (partial): on every signature that does not combine `*args` with keyword-only
-    parameters, two spellings that bind have equal keys iff they bind the same parameter values -/
-theorem C12_key_normal_partial (s : Sig) (hs : s.ok = true) (a1 a2 : List Nat) (k1 k2 : List (Nat × Nat))
+/-- the same for every history over declarations all of whose signatures are faithful whatever the arguments -/
+theorem C12_spec_holds_sigs (fns : List FnDecl) (ops : List Op) (hsig : sigsOk fns = true) :
+    spec fns (run fns St.init ops) = true :=
+  C12_spec_holds_partial fns ops (histOk_of_sigsOk fns hsig ops)
+
+/-- **key normalisation** (partial): for two spellings that bind and on which the default key is faithful
+    (`callOk`), the keys are equal iff they bind the same parameter values -/
+theorem C12_key_normal_partial (s : Sig) (a1 a2 : List Nat) (k1 k2 : List (Nat × Nat))
+    (h1 : callOk s a1 = true) (h2 : callOk s a2 = true)
     (b1 b2 : Binding) (hb1 : s.bind a1 k1 = .ok b1) (hb2 : s.bind a2 k2 = .ok b2) :
     s.key a1 k1 = s.key a2 k2 ↔ b1 = b2 := by
   obtain ⟨t1, ht1⟩ := key_ok_of_bind s a1 k1 b1 hb1
   obtain ⟨t2, ht2⟩ := key_ok_of_bind s a2 k2 b2 hb2
   rw [ht1, ht2]
-  have := key_eq_iff_bind_eq s hs a1 a2 k1 k2 b1 b2 t1 t2 hb1 hb2 ht1 ht2
+  have := key_eq_iff_bind_eq s a1 a2 k1 k2 h1 h2 b1 b2 t1 t2 hb1 hb2 ht1 ht2
   constructor
   · intro h; injection h with h; exact this.mp h
   · intro h; rw [this.mpr h]
@@ -52,6 +68,41 @@ theorem C12_key_normal_counterexample :
     cexSig.bind [1, 2] [] = .ok { params := [1, 0], rest := [2], extra := [] } ∧
     cexSig.bind [1] [(1, 2)] = .ok { params := [1, 2], rest := [], extra := [] } ∧
     cexSig.key [1, 2] [] = cexSig.key [1] [(1, 2)] ∧ cexSig.key [1, 2] [] = .ok [.v 1, .v 2] := by
+  decide
+
+/-- `def g(p0, /, **extra)`: `g(1, p0=2)` (extra={p0: 2}) and `g(1)` (extra={}) bind differently but get the same
+    key `(1,)` - the keyword is dropped because its name is in `arg_names` -/
+def poSig : Sig := { pos := [(0, none)], kwonly := [], varargs := false, varkw := true, posonly := 1 }
+
+theorem C12_key_posonly_counterexample :
+    poSig.bind [1] [(0, 2)] = .ok { params := [1], rest := [], extra := [(0, 2)] } ∧
+    poSig.bind [1] [] = .ok { params := [1], rest := [], extra := [] } ∧
+    poSig.key [1] [(0, 2)] = poSig.key [1] [] ∧ poSig.key [1] [] = .ok [.v 1] := by
+  decide
+
+/-- `def f(*rest, **extra)`: `f(("p6", 1))` (rest=(("p6", 1),)) and `f(p6=1)` (extra={p6: 1}) bind differently but
+    get the same key `(("p6", 1),)` -/
+def pairSig : Sig := { pos := [], kwonly := [], varargs := true, varkw := true }
+
+theorem C12_key_pair_counterexample :
+    pairSig.bind [pairTok 6 1] [] = .ok { params := [], rest := [pairTok 6 1], extra := [] } ∧
+    pairSig.bind [] [(6, 1)] = .ok { params := [], rest := [], extra := [(6, 1)] } ∧
+    pairSig.key [pairTok 6 1] [] = pairSig.key [] [(6, 1)] ∧ pairSig.key [] [(6, 1)] = .ok [.kw 6 1] := by
+  decide
+
+def fnsOf (s : Sig) : List FnDecl := [{ kind := .func, sig := s }]
+def spOf (args : List Nat) (kw : List (Nat × Nat)) : Spell := { fn := 0, recv := .none, args := args, kw := kw, th := 0 }
+
+/-- **the hypothesis of `C12_spec_holds_partial` cannot be dropped**: for each of the three conflations the
+    model's own run of two calls (the second is answered with the first one's task) is rejected by the observer,
+    and `histOk` is false of these histories -/
+theorem C12_spec_needs_histOk :
+    (spec (fnsOf cexSig) (run (fnsOf cexSig) St.init [.call (spOf [1, 2] []), .call (spOf [1] [(1, 2)])]) = false ∧
+      histOk (fnsOf cexSig) [.call (spOf [1, 2] []), .call (spOf [1] [(1, 2)])] = false) ∧
+    (spec (fnsOf poSig) (run (fnsOf poSig) St.init [.call (spOf [1] [(0, 2)]), .call (spOf [1] [])]) = false ∧
+      histOk (fnsOf poSig) [.call (spOf [1] [(0, 2)]), .call (spOf [1] [])] = false) ∧
+    (spec (fnsOf pairSig) (run (fnsOf pairSig) St.init [.call (spOf [pairTok 6 1] []), .call (spOf [] [(6, 1)])]) = false ∧
+      histOk (fnsOf pairSig) [.call (spOf [pairTok 6 1] []), .call (spOf [] [(6, 1)])] = false) := by
   decide
 
 /-- the keygetter never raises on a call that binds -/
@@ -92,17 +143,20 @@ theorem C12_running_escape_private (fns : List FnDecl) (s : St) (c : Spell) (d :
     ((step fns s (.call c)).1.tasks[s.tasks.length]?).map (·.reg) = some false := by
   simp [step, hd, hk, hm, ht, hr, create, hb]
 
-/-- after the registered task that holds the entry of a key completes (with a value or an error), the next well-formed call with that
-    key creates and registers a new task -/
-theorem C12_rerun_after_complete (fns : List FnDecl) (s : St) (c : Spell) (d : FnDecl) (tup : List KeyElem)
-    (t : Nat) (task : Task) (o : Outc) (b : Binding)
+/-- after the task that holds the entry of a key completes (with a value or an error), the next well-formed call
+    with that key creates and registers a new task - for every reachable state (no assumption on the task: that it
+    is registered, uncompleted and was created under this key follows from the invariant of the table) -/
+theorem C12_rerun_after_complete (fns : List FnDecl) (ops : List Op) (c : Spell) (d : FnDecl) (tup : List KeyElem)
+    (t : Nat) (o : Outc) (b : Binding)
     (hd : fns[c.fn]? = some d) (hk : d.sig.key (effArgs d c) c.kw = .ok tup) (hb : d.sig.bind (effArgs d c) c.kw = .ok b)
-    (ht : s.tasks[t]? = some task) (hkey : task.key = { tup := tup, th := c.th, fn := c.fn })
-    (hreg : task.reg = true) (ho : task.out = none)
-    (hm : mget s.table { tup := tup, th := c.th, fn := c.fn } = some t) :
+    (hm : mget (finalState fns St.init ops).table { tup := tup, th := c.th, fn := c.fn } = some t) :
+    let s := finalState fns St.init ops
     let s1 := (step fns s (.complete t o)).1
     (step fns s1 (.call c)).2 = .ret s.tasks.length true ∧
     mget (step fns s1 (.call c)).1.table { tup := tup, th := c.th, fn := c.fn } = some s.tasks.length := by
+  have hwf := wf_final fns ops St.init wf_init
+  generalize finalState fns St.init ops = s at hm hwf
+  obtain ⟨task, ht, hkey, hreg, ho⟩ := hwf _ _ hm
   simp [step, hd, hk, ht, ho, hreg, hkey, hm, setTask, mget_merase, create, hb, mget_mset]
 
 /-- after `dirty()` with a spelling of the call, the next well-formed call creates and registers a new task -/
@@ -163,8 +217,9 @@ theorem C12_instances_disjoint (d : FnDecl) (c1 c2 : Spell) (i j : Nat) (t1 t2 :
     · contradiction
     · injection hk1 with hk1; injection hk2 with hk2
       subst hk1; subst hk2
-      simp [hij]
-
+      intro e
+      simp only [List.map_cons, List.cons_append, List.cons.injEq] at e
+      exact hij (ofVal_inj i j e.1)
 
 /-! ### thread identity, leftover entries, number of keys in flight (round 3)
 
@@ -204,7 +259,9 @@ theorem C12_shared_task_has_callers_key (fns : List FnDecl) (ops : List Op) (c :
             obtain ⟨a, ha, hka, hra, hoa⟩ := hwf _ _ hm
             exact ⟨d, tup, a, hd, hk, ha, hka, hra, hoa⟩
 
-/-- the end of a thread runs no code: state and table are unchanged (entries of the finished thread stay) -/
+/-- (holds by construction of the model: `step` has no code for the end of a thread, as tools.py has none; what
+    ties it to the code is the correspondence - `threadEnd` observations with the size of the table are diffed.
+    Not counted among the property theorems.) -/
 theorem C12_thread_end_noop (fns : List FnDecl) (s : St) (th : Nat) :
     step fns s (.threadEnd th) = (s, .unit) := rfl
 
@@ -216,24 +273,91 @@ theorem C12_entry_survives_others (fns : List FnDecl) (s : St) (k : Key) (ops : 
     mget (finalState fns s ops).table k = mget s.table k :=
   avoids_keeps fns k ops s h
 
-/-- **sharing does not depend on how much else is in flight**: if after some history the table holds task `t` for the
-    key of call `c`, then after any further history of ANY length that does not work on that key, `c` is still
-    answered with `t` (unless `t`'s body is executing at that moment) and nothing changes -/
-theorem C12_shared_after_any_fanout (fns : List FnDecl) (ops0 ops : List Op) (c : Spell) (d : FnDecl)
-    (tup : List KeyElem) (t : Nat)
-    (hd : fns[c.fn]? = some d) (hk : d.sig.key (effArgs d c) c.kw = .ok tup)
-    (hm : mget (finalState fns St.init ops0).table { tup := tup, th := c.th, fn := c.fn } = some t)
-    (hav : avoids fns { tup := tup, th := c.th, fn := c.fn } (finalState fns St.init ops0) ops = true)
-    (hr : ∀ task, (finalState fns (finalState fns St.init ops0) ops).tasks[t]? = some task → task.running = false) :
-    step fns (finalState fns (finalState fns St.init ops0) ops) (.call c) =
-      (finalState fns (finalState fns St.init ops0) ops, .ret t false) := by
-  have hwf := wf_final fns ops _ (wf_final fns ops0 St.init wf_init)
-  have hm' := avoids_keeps fns _ ops _ hav
-  rw [hm] at hm'
-  obtain ⟨task, ht, _, _, _⟩ := hwf _ _ hm'
-  exact C12_inflight_shared fns _ c d tup t task hd hk hm' ht (hr task ht)
+/-- **the in-flight period**: the entry `k ↦ t0` stays in place through ANY history of ANY length that contains no
+    dirty() of `k` and no completion of `t0` - calls of `k` itself (from any spelling), calls / dirty() / completions
+    of any number of other keys, starting / resuming / suspending any task (`t0` included) and ends of threads are
+    all allowed.  (`avoids` implies `calm` on reachable states: `avoids_calm`.) -/
+theorem C12_entry_kept_while_calm (fns : List FnDecl) (s : St) (k : Key) (t0 : Nat) (ops : List Op)
+    (hm : mget s.table k = some t0) (h : calm fns k t0 ops = true) :
+    mget (finalState fns s ops).table k = some t0 :=
+  calm_keeps fns k t0 ops s hm h
 
-/-! non-vacuity -/
+theorem callKey_some (fns : List FnDecl) (c : Spell) (k : Key) (h : callKey fns c = some k) :
+    ∃ d tup, fns[c.fn]? = some d ∧ d.sig.key (effArgs d c) c.kw = .ok tup ∧ k = { tup := tup, th := c.th, fn := c.fn } := by
+  simp only [callKey] at h
+  split at h
+  · contradiction
+  · rename_i d hd
+    split at h
+    · contradiction
+    · rename_i tup hk
+      injection h with h
+      exact ⟨d, tup, hd, hk, h.symm⟩
+
+/-- **one creation per in-flight period**: let the table hold `t0` for key `k` after some history, and let any
+    further history contain no dirty() of `k` and no completion of `t0`.  Then EVERY call with key `k` anywhere in
+    that further history finds the entry `k ↦ t0` and
+    * is answered with `t0` itself, changing nothing, whenever the body of `t0` is not executing at that moment;
+    * otherwise (issued while the body of `t0` is executing) leaves the table alone, and a task it creates is NOT
+      registered.
+    So no second task is ever registered for `k` during the period: outside callers all share the one execution. -/
+theorem C12_one_creation_per_period (fns : List FnDecl) (ops0 pre post : List Op) (c : Spell) (k : Key) (t0 : Nat)
+    (hm : mget (finalState fns St.init ops0).table k = some t0)
+    (hcalm : calm fns k t0 (pre ++ .call c :: post) = true)
+    (hk : callKey fns c = some k) :
+    let s1 := finalState fns (finalState fns St.init ops0) pre
+    mget s1.table k = some t0 ∧
+    ∃ task, s1.tasks[t0]? = some task ∧
+      (task.running = false → step fns s1 (.call c) = (s1, .ret t0 false)) ∧
+      (task.running = true → (step fns s1 (.call c)).1.table = s1.table ∧
+        ∀ t, (step fns s1 (.call c)).2 = .ret t true →
+          t = s1.tasks.length ∧ ((step fns s1 (.call c)).1.tasks[t]?).map (·.reg) = some false) := by
+  intro s1
+  have hwf : TableWf s1 := wf_final fns pre _ (wf_final fns ops0 St.init wf_init)
+  have hm1 : mget s1.table k = some t0 := calm_keeps fns k t0 pre _ hm (calm_prefix fns k t0 pre _ hcalm)
+  obtain ⟨task, ht, _, _, _⟩ := hwf _ _ hm1
+  obtain ⟨d, tup, hd, hkey, hkeq⟩ := callKey_some fns c k hk
+  subst hkeq
+  refine ⟨hm1, task, ht, ?_, ?_⟩
+  · intro hr
+    simp [step, hd, hkey, hm1, ht, hr]
+  · intro hr
+    refine ⟨call_keeps_entry fns s1 c _ t0 hk hm1, ?_⟩
+    intro t hres
+    simp only [step, hd, hkey, hm1, ht, hr, ↓reduceIte, create] at hres ⊢
+    split at hres
+    · simp at hres
+    · simp only [Res.ret.injEq, and_true] at hres
+      subst hres
+      simp
+
+/-- **sharing does not depend on how much else is in flight or on how the call is spelled**: if after some history
+    the table holds task `t0` for the key of call `c`, then after any further history of ANY length without a
+    dirty() of that key and without the completion of `t0`, `c` is still answered with `t0` (unless `t0`'s body is
+    executing at that moment) and nothing changes -/
+theorem C12_shared_while_calm (fns : List FnDecl) (ops0 ops : List Op) (c : Spell) (k : Key) (t0 : Nat)
+    (hm : mget (finalState fns St.init ops0).table k = some t0)
+    (hcalm : calm fns k t0 ops = true)
+    (hk : callKey fns c = some k)
+    (hr : ∀ task, (finalState fns (finalState fns St.init ops0) ops).tasks[t0]? = some task → task.running = false) :
+    step fns (finalState fns (finalState fns St.init ops0) ops) (.call c) =
+      (finalState fns (finalState fns St.init ops0) ops, .ret t0 false) := by
+  have hc : calm fns k t0 (ops ++ .call c :: []) = true := by
+    simp only [calm, List.all_append, List.all_cons, List.all_nil, Bool.and_true, Bool.and_eq_true] at hcalm ⊢
+    exact ⟨hcalm, rfl⟩
+  obtain ⟨_, task, ht, h1, _⟩ := C12_one_creation_per_period fns ops0 ops [] c k t0 hm hc hk
+  exact h1 (hr task ht)
+
+/-- **a body starts at most once**: in every history, from every state, at most one `start t` operation is answered
+    with a binding (the generator of a task begins to run once; a second `start`, or one after completion, is
+    answered `bad`).  Together with `C12_one_creation_per_period`: per in-flight period of a key, the callers from
+    outside the running body share ONE task and that task's body runs at most ONCE. -/
+theorem C12_body_starts_once (fns : List FnDecl) (s : St) (ops : List Op) (t : Nat) :
+    bodyStarts t (run fns s ops) ≤ 1 :=
+  starts_once fns t ops s
+
+
+/-! ## non-vacuity, and what the observer rejects -/
 
 /-- a history with sharing, two spellings, a private re-entrant task, completion and re-creation satisfies the
     hypothesis -/
@@ -243,10 +367,17 @@ def exC2 : Spell := { fn := 0, recv := .none, args := [], kw := [(1, 1), (0, 1)]
 def exOps : List Op := [.call exC1, .call exC2, .start 0, .call exC1, .suspend 0, .call exC2, .complete 0 (.val 0), .call exC1]
 
 example :
-    sigsOk exFns = true ∧
+    sigsOk exFns = true ∧ histOk exFns exOps = true ∧
     (run exFns St.init exOps).map (·.res) =
       [.ret 0 true, .ret 0 false, .binding { params := [1, 1], rest := [], extra := [] }, .ret 1 true, .unit,
        .ret 0 false, .unit, .ret 2 true] := by
+  decide
+
+/-- `histOk` is strictly weaker than `sigsOk`: a `*args` + `**kwargs` function called with ordinary values, and a
+    positional-only signature without `**kwargs` -/
+example :
+    sigsOk (fnsOf pairSig) = false ∧ histOk (fnsOf pairSig) [.call (spOf [1, 2] [(6, 1)]), .dirty (spOf [1] [])] = true ∧
+    sigsOk (fnsOf { poSig with varkw := false }) = true := by
   decide
 
 /-- the former stale-completion history: the completion of the old task 0 leaves task 1 registered, the last call
@@ -268,6 +399,95 @@ example :
     spec cexFns [{ op := .call cexCall, res := .ret 0 true, size := 1 }, { op := .call cexCall, res := .ret 1 true, size := 1 }] = false := by
   decide
 
+/-! ### the wrong observations listed by the independent audit (B3) are rejected -/
+
+def thC' (th : Nat) : Spell := { fn := 0, recv := .none, args := [1], kw := [], th := th }
+/-- `f()`: does not bind (p0 missing), the keygetter raises -/
+def badDirty : Spell := { fn := 0, recv := .none, args := [], kw := [], th := 0 }
+/-- `f(1, 2)`: does not bind (too many), but the keygetter answers `(1, 2)` and dirty() returns normally -/
+def oddDirty : Spell := { fn := 0, recv := .none, args := [1, 2], kw := [], th := 0 }
+
+/-- after a dirty() with arguments that do not bind and that RAISED, the observer goes on judging: the second caller
+    still has to get task 0 (this history was accepted before: the observer had given up for good) -/
+example :
+    specClause cexFns [{ op := .call cexCall, res := .ret 0 true, size := 1 }, { op := .dirty badDirty, res := .typeError, size := 1 },
+      { op := .call cexCall, res := .ret 1 true, size := 1 }] = "shared@call" ∧
+    (run cexFns St.init [.call cexCall, .dirty badDirty, .call cexCall]).map (·.res) = [.ret 0 true, .typeError, .ret 0 false] ∧
+    spec cexFns (run cexFns St.init [.call cexCall, .dirty badDirty, .call cexCall]) = true := by
+  decide
+
+/-- after a dirty() with arguments that do not bind and that did NOT raise, the next call may get task 0 or a new
+    task - and from then on everything is determined again: a third task is rejected in both continuations -/
+example :
+    spec cexFns [{ op := .call cexCall, res := .ret 0 true, size := 1 }, { op := .dirty oddDirty, res := .unit, size := 1 },
+      { op := .call cexCall, res := .ret 0 false, size := 1 }] = true ∧
+    spec cexFns [{ op := .call cexCall, res := .ret 0 true, size := 1 }, { op := .dirty oddDirty, res := .unit, size := 1 },
+      { op := .call cexCall, res := .ret 1 true, size := 1 }] = true ∧
+    specClause cexFns [{ op := .call cexCall, res := .ret 0 true, size := 1 }, { op := .dirty oddDirty, res := .unit, size := 1 },
+      { op := .call cexCall, res := .ret 0 false, size := 1 }, { op := .call cexCall, res := .ret 1 true, size := 2 }] = "shared@call" ∧
+    specClause cexFns [{ op := .call cexCall, res := .ret 0 true, size := 1 }, { op := .dirty oddDirty, res := .unit, size := 1 },
+      { op := .call cexCall, res := .ret 1 true, size := 1 }, { op := .call cexCall, res := .ret 2 true, size := 2 }] = "shared@call" ∧
+    specClause cexFns [{ op := .call cexCall, res := .ret 0 true, size := 1 }, { op := .dirty oddDirty, res := .unit, size := 1 },
+      { op := .call cexCall, res := .ret 1 true, size := 1 }, { op := .call cexCall, res := .ret 0 false, size := 2 }] = "shared@call" ∧
+    -- calls of ANOTHER thread are not affected by it at all
+    specClause cexFns [{ op := .call (thC' 1), res := .ret 0 true, size := 1 }, { op := .dirty oddDirty, res := .unit, size := 1 },
+      { op := .call (thC' 1), res := .ret 1 true, size := 2 }] = "shared@call" := by
+  decide
+
+/-- the body of one task started twice is rejected; the model answers the second start `bad` -/
+example :
+    specClause cexFns [{ op := .call cexCall, res := .ret 0 true, size := 1 },
+      { op := .start 0, res := .binding { params := [1], rest := [], extra := [] }, size := 1 },
+      { op := .start 0, res := .binding { params := [1], rest := [], extra := [] }, size := 1 }] = "started-twice@start" ∧
+    (run cexFns St.init [.call cexCall, .start 0, .start 0]).map (·.res) =
+      [.ret 0 true, .binding { params := [1], rest := [], extra := [] }, .bad] ∧
+    bodyStarts 0 (run cexFns St.init [.call cexCall, .start 0, .start 0, .suspend 0, .start 0]) = 1 := by
+  decide
+
+/-- further wrong observations the former observer accepted: a call from inside the running body answered with the
+    task of ANOTHER function; anything at all for an unknown function / task; a second completion; `suspend` /
+    `complete` answered with something else than `unit`; a well-formed call that raises inside the running body -/
+example :
+    specClause (cexFns ++ cexFns) [{ op := .call cexCall, res := .ret 0 true, size := 1 },
+      { op := .call { cexCall with fn := 1 }, res := .ret 1 true, size := 2 },
+      { op := .start 0, res := .binding { params := [1], rest := [], extra := [] }, size := 2 },
+      { op := .call cexCall, res := .ret 1 false, size := 2 }] = "shared@call" ∧
+    specClause cexFns [{ op := .call { cexCall with fn := 5 }, res := .ret 3 false, size := 1 }] = "unknown-function@call" ∧
+    specClause cexFns [{ op := .start 7, res := .binding { params := [1], rest := [], extra := [] }, size := 0 }] = "unknown-task@start" ∧
+    specClause cexFns [{ op := .call cexCall, res := .ret 0 true, size := 1 }, { op := .complete 0 (.val 0), res := .unit, size := 0 },
+      { op := .complete 0 (.val 1), res := .unit, size := 0 }] = "completed-twice@complete" ∧
+    specClause cexFns [{ op := .call cexCall, res := .ret 0 true, size := 1 }, { op := .suspend 0, res := .bad, size := 1 }]
+      = "schedule-result@suspend" ∧
+    specClause cexFns [{ op := .call cexCall, res := .ret 0 true, size := 1 },
+      { op := .start 0, res := .binding { params := [1], rest := [], extra := [] }, size := 1 },
+      { op := .call cexCall, res := .typeError, size := 1 }] = "valid-call-raised@call" := by
+  decide
+
+/-- `len(DeduplicateDecorator.tasks)` is judged too: one call cannot add more than one entry, a call answered with an
+    existing task adds none, a completion does not add any, scheduling leaves the size alone -/
+example :
+    specClause cexFns [{ op := .call cexCall, res := .ret 0 true, size := 12345 }] = "size@call" ∧
+    specClause cexFns [{ op := .call cexCall, res := .ret 0 true, size := 1 }, { op := .call cexCall, res := .ret 0 false, size := 0 }]
+      = "size@call" ∧
+    specClause cexFns [{ op := .call cexCall, res := .ret 0 true, size := 1 }, { op := .complete 0 (.val 0), res := .unit, size := 2 }]
+      = "size@complete" ∧
+    specClause cexFns [{ op := .call cexCall, res := .ret 0 true, size := 1 },
+      { op := .start 0, res := .binding { params := [1], rest := [], extra := [] }, size := 0 }] = "size@start" := by
+  decide
+
+/-- the three conflations carry their own clause names (stable signatures), and a failure on such a signature that
+    is NOT a conflation keeps its own name: `g(1)` twice on `def g(p0, /, **extra)` with a second task is "shared" -/
+example :
+    specClause (fnsOf cexSig) (run (fnsOf cexSig) St.init [.call (spOf [1, 2] []), .call (spOf [1] [(1, 2)])]) = "varargs-kwonly@call" ∧
+    specClause (fnsOf poSig) (run (fnsOf poSig) St.init [.call (spOf [1] [(0, 2)]), .call (spOf [1] [])]) = "posonly-varkw@call" ∧
+    specClause (fnsOf pairSig) (run (fnsOf pairSig) St.init [.call (spOf [pairTok 6 1] []), .call (spOf [] [(6, 1)])])
+      = "varargs-varkw-pair@call" ∧
+    specClause (fnsOf poSig) [{ op := .call (spOf [1] []), res := .ret 0 true, size := 1 },
+      { op := .call (spOf [1] []), res := .ret 1 true, size := 1 }] = "shared@call" ∧
+    specClause (fnsOf pairSig) [{ op := .call (spOf [1] []), res := .ret 0 true, size := 1 },
+      { op := .call (spOf [1] []), res := .ret 1 true, size := 1 }] = "shared@call" := by
+  decide
+
 /-- threads and fan-out: thread 1 leaves key (1) in flight and ends; a later thread 4 (a different token) gets its own
     task; three more keys go in flight; thread 4 asks again and shares its own task 1 -/
 def thC (th v : Nat) : Spell := { fn := 0, recv := .none, args := [v], kw := [], th := th }
@@ -286,5 +506,40 @@ example :
     spec cexFns [{ op := .call (thC 1 1), res := .ret 0 true, size := 1 }, { op := .threadEnd 1, res := .unit, size := 1 },
       { op := .call (thC 4 1), res := .ret 0 false, size := 1 }] = false := by
   decide
+
+/-- the hypotheses of the period theorems are satisfiable by a history that is NOT `avoids` (it calls the key itself,
+    runs and suspends its task, dirties and completes other keys): `calm` holds, `avoids` does not, and the call
+    after it is answered with task 0 -/
+def calmOps : List Op := [.call (thC 0 1), .start 0, .call (thC 0 1), .suspend 0, .call (thC 0 2), .dirty (thC 0 2),
+  .call (thC 0 2), .complete 2 (.val 0), .threadEnd 3, .call (thC 0 1)]
+
+example :
+    mget (finalState cexFns St.init [.call (thC 0 1)]).table { tup := [.v 1], th := 0, fn := 0 } = some 0 ∧
+    calm cexFns { tup := [.v 1], th := 0, fn := 0 } 0 calmOps = true ∧
+    avoids cexFns { tup := [.v 1], th := 0, fn := 0 } (finalState cexFns St.init [.call (thC 0 1)]) calmOps = false ∧
+    callKey cexFns (thC 0 1) = some { tup := [.v 1], th := 0, fn := 0 } ∧
+    (run cexFns (finalState cexFns St.init [.call (thC 0 1)]) calmOps).map (·.res) =
+      [.ret 0 false, .binding { params := [1], rest := [], extra := [] }, .ret 1 true, .unit, .ret 2 true, .unit,
+       .ret 3 true, .unit, .unit, .ret 0 false] := by
+  decide
+
+/-- `C12_rerun_after_complete`, `C12_rerun_after_dirty`, `C12_running_escape_private`, `C12_completion_keeps_newer`,
+    `C12_instances_disjoint` instantiated (their hypotheses are satisfiable) -/
+example := C12_rerun_after_complete cexFns [.call cexCall] cexCall cexFns[0] [.v 1] 0 (.err 3) { params := [1], rest := [], extra := [] }
+  (by decide) (by decide) (by decide) (by decide)
+example := C12_rerun_after_dirty cexFns (finalState cexFns St.init [.call cexCall]) cexCall cexCall cexFns[0] [.v 1]
+  { params := [1], rest := [], extra := [] } (by decide) (by decide) (by decide) rfl rfl (by decide)
+example := C12_running_escape_private cexFns (finalState cexFns St.init [.call cexCall, .start 0]) cexCall cexFns[0] [.v 1] 0
+  { key := { tup := [.v 1], th := 0, fn := 0 }, b := { params := [1], rest := [], extra := [] }, reg := true, started := true,
+    running := true, out := none }
+  { params := [1], rest := [], extra := [] } (by decide) (by decide) (by decide) (by decide) (by decide) (by decide)
+example := C12_completion_keeps_newer cexFns (finalState cexFns St.init [.call cexCall, .dirty cexCall, .call cexCall]) 0 1
+  { key := { tup := [.v 1], th := 0, fn := 0 }, b := { params := [1], rest := [], extra := [] }, reg := true, started := false,
+    running := false, out := none } (.val 0) (by decide) (by decide) (by decide)
+def mD : FnDecl := { kind := .method, sig := { pos := [(0, none), (1, none)], kwonly := [], varargs := false, varkw := false } }
+example := C12_instances_disjoint mD { fn := 0, recv := .inst 100, args := [1], kw := [], th := 0 }
+  { fn := 0, recv := .inst 101, args := [1], kw := [], th := 0 } 100 101
+  [.v 100, .v 1] [.v 101, .v 1] rfl rfl rfl (by decide) (by decide) (by decide)
+example : (step cexFns (finalState cexFns St.init [.call cexCall]) (.call cexCall)).2 = .ret 0 false := by decide
 
 end AsynqModel.Dedup
